@@ -95,6 +95,30 @@ def j_rules(P, E):
                               "handed out again while its earlier holder is still registered (the newcomer overwrites it, "
                               "either teardown removes the other)" % sorted(src.term_name(t) for t in foreign),
                               body=src, line=s_.get("line"))
+    # ---- J1 (cont.): the key counter is written only by the increment in the subscribe path
+    for b in P.bodies.values():
+        if b.id in P.absorbed or not (b.nid.startswith("subjects::subject::") or b.nid.startswith("<subjects::subject::")):
+            continue
+        if b.kind == "assoc" and b.name == "new":
+            continue
+        for i in sorted(b.reach):
+            for s_ in b.blocks[i]["stmts"]:
+                if s_["k"] == "assign" and len(s_["lhs"]) > 1 and "*" in s_["lhs"] and _hits(P, b, b.place_prov(s_["lhs"]), "serial"):
+                    rv = s_["rv"]
+                    ops = [rv[k] for k in ("a", "b", "op") if isinstance(rv.get(k), dict)]
+                    leaves = set()
+                    for o in ops:
+                        leaves |= b.value_sources(b.operand_prov(o))
+                    from_self = any(t[0] != "const" and _hits(P, b, [t], "serial") for t in leaves)
+                    r.instance(("J1", b.nid, "counter store"), True, None)
+                    if b.id != src.id or not from_self:
+                        r.violate(("J1", b.nid, "key counter reset"),
+                                  "the key counter is stored in %s with a value that does not continue the count: keys of "
+                                  "subscribers that are still registered (or whose teardown is still pending) are handed out again, "
+                                  "and a stale teardown removes the newcomer" % b.nid, body=b, line=s_.get("line"))
+        for c in b.calls:
+            if atomic_op(c.path) == "STORE" and c.args and _hits(P, b, b.operand_prov(c.args[0]), "serial"):
+                r.violate(("J1", b.nid, "key counter reset"), "the key counter is overwritten by an atomic store", body=b, line=c.line)
     # ---- J2: who may write the map
     n = 0
     for b in P.bodies.values():
